@@ -114,6 +114,41 @@ type runState struct {
 	cells     map[string]bool
 	rows      map[string]bool
 	settle    []float64
+	// reported: unlisted keys already reported in this run; a repetition is not
+	// waited for with the full bound again, and after maxUnlisted distinct ones the
+	// walk stops (a change that breaks every shutdown must end as a violation, not
+	// as an exhausted time budget)
+	reported    map[string]bool
+	nUnlisted   int
+}
+
+const (
+	maxUnlisted     = 6  // distinct unlisted keys
+	maxUnlistedHits = 14 // occurrences of unlisted keys
+)
+
+func (st *runState) isKnownOrReported(k string) bool {
+	if st.rec.IsKnown(k) {
+		return true
+	}
+	st.mu.Lock()
+	defer st.mu.Unlock()
+	return st.reported[k]
+}
+
+func (st *runState) tooMany() bool {
+	st.mu.Lock()
+	defer st.mu.Unlock()
+	return len(st.reported) >= maxUnlisted || st.nUnlisted >= maxUnlistedHits
+}
+
+func (st *runState) noteReported(k string) {
+	if !st.rec.IsKnown(k) {
+		st.mu.Lock()
+		st.reported[k] = true
+		st.nUnlisted++
+		st.mu.Unlock()
+	}
 }
 
 type failer func(key, what string, cs any) bool
@@ -124,6 +159,10 @@ func (st *runState) evalCase(cs caseSpec, fail failer) outcome {
 	scn := scenarioByName(cs.Scn)
 	if scn == nil {
 		panic("no scenario " + cs.Scn)
+	}
+	if st.tooMany() {
+		rec.Class("skipped:enough-violations-reported")
+		return outcome{}
 	}
 	prefix := predictedKeyPrefix(scn, cs)
 	st.mu.Lock()
@@ -141,7 +180,11 @@ func (st *runState) evalCase(cs caseSpec, fail failer) outcome {
 		ign[k] = true
 	}
 	st.mu.Unlock()
-	o := runCaseIgnoring(scn, cs, fullBound, ign, rec.IsKnown)
+	t0 := time.Now()
+	o := runCaseIgnoring(scn, cs, fullBound, ign, st.isKnownOrReported)
+	if os.Getenv("VERIF_C15_TRACE") != "" {
+		fmt.Printf("TRACE %6.0fms %s %s pos=%d key=%q\n", float64(time.Since(t0).Milliseconds()), cs.Scn, cs.Fault, cs.Pos, o.Key)
+	}
 	rec.Eval()
 	rec.Class("fault:" + cs.Fault)
 	rec.Class("proto:" + scn.Proto)
@@ -158,6 +201,11 @@ func (st *runState) evalCase(cs caseSpec, fail failer) outcome {
 	}
 	if o.NeededClose {
 		rec.Class("calls-pending-until-local-close")
+		if o.Key == "" {
+			// not judged (the statement does not say who has to notice the disconnect
+			// first), but measured
+			rec.Class("calls-returned-only-after-local-close")
+		}
 	}
 	if o.CallPendingAtEnd {
 		rec.Class("call-blocked-when-connection-ended")
@@ -191,7 +239,10 @@ func (st *runState) evalCase(cs caseSpec, fail failer) outcome {
 			fmt.Printf("HARNESS-NOTE %s: %s\n", cs, o.What)
 			return o
 		}
-		if fail(o.Key, o.What, map[string]any{"spec": cs, "outcome": o}) {
+		st.noteReported(o.Key)
+		if fail(o.Key, o.What, map[string]any{"spec": cs, "outcome": o}) && strings.HasPrefix(o.Key, prefix) {
+			// a listed (protocol, call, fault, position) class was reproduced: it is
+			// excluded by construction for the rest of the run
 			st.mu.Lock()
 			st.confirmed[prefix] = true
 			st.mu.Unlock()
@@ -224,13 +275,13 @@ func TestC15(t *testing.T) {
 	defer rec.Finish()
 	rec.Assume(
 		"the harness drains ErrorChan() (a consumer that never reads it is outside the statement)",
-		"user callbacks given to the library return immediately",
+		"user callbacks given to the library return immediately (one tx-submission scenario has a Done callback that takes 3 ms)",
 		"a goroutine counts as started for the connection when it is not in the goroutine set taken right before the connection is created and has a gouroboros frame; the harness's own caller goroutines are judged as calls, not as leaks",
 		"goroutines that even a fault-free conversation leaves behind are reported once by the baseline phase (key no-fault) and not again per fault",
 		"bounded liveness: "+fullBound.String()+" polled, against a measured settle time of milliseconds; classes that are listed known findings are re-confirmed with "+knownBound.String()+" only")
 	limitShrinkTime()
 
-	st := &runState{rec: rec, ignoreLeak: map[string]bool{}, confirmed: map[string]bool{}, cells: map[string]bool{}, rows: map[string]bool{}}
+	st := &runState{rec: rec, ignoreLeak: map[string]bool{}, confirmed: map[string]bool{}, cells: map[string]bool{}, rows: map[string]bool{}, reported: map[string]bool{}}
 	viol := func(key, what string, cs any) bool { return rec.Violation(key, what, cs) }
 
 	// ---- replay of a saved case
@@ -332,7 +383,10 @@ func (st *runState) baseline(only string, fail failer) {
 		if only != "" && s.Name != only {
 			continue
 		}
-		cs := caseSpec{Scn: s.Name, Fault: "none", LingerUs: 2000}
+		if st.tooMany() {
+			return
+		}
+		cs := caseSpec{Scn: s.Name, Fault: "none", LingerUs: 20000}
 		st.mu.Lock()
 		ign := map[string]bool{}
 		for k := range st.ignoreLeak {
@@ -343,13 +397,13 @@ func (st *runState) baseline(only string, fail failer) {
 			// leaks of the baseline are listed per leaked function and mode
 			if i := strings.Index(k, "goroutine-leak@"); i >= 0 {
 				for _, f := range strings.Split(k[i+len("goroutine-leak@"):], "+") {
-					if !st.rec.IsKnown(noFaultLeakKey(s, f)) {
+					if !st.isKnownOrReported(noFaultLeakKey(s, f)) {
 						return false
 					}
 				}
 				return true
 			}
-			return st.rec.IsKnown(k)
+			return st.isKnownOrReported(k)
 		})
 		st.rec.Eval()
 		st.rec.Class("fault:none")
@@ -370,6 +424,7 @@ func (st *runState) baseline(only string, fail failer) {
 			// one finding per leaked function and mode
 			for _, f := range o.leakFuncs {
 				key := noFaultLeakKey(s, f)
+				st.noteReported(key)
 				fail(key, fmt.Sprintf("a goroutine parked in %s is left behind by every %s connection, also after a fault-free conversation and Close() (first seen in scenario %s)", f, s.Mode, s.Name),
 					map[string]any{"spec": cs, "outcome": o})
 				st.mu.Lock()
@@ -378,6 +433,7 @@ func (st *runState) baseline(only string, fail failer) {
 			}
 			continue
 		}
+		st.noteReported(o.Key)
 		fail(o.Key, o.What, map[string]any{"spec": cs, "outcome": o})
 	}
 }
